@@ -78,6 +78,7 @@ def gen_case(seed: int, tier: str, index: int) -> Dict[str, Any]:
         "tables": {"idle": {"PROTOCOL_TIMEOUT_IN_SECONDS": rng.choice([1, 2, 4]),
                             "PING_FREQUENCY_IN_SECONDS": rng.choice([5, 20, 60])}},
         "snapshot": snaps[rng.randrange(len(snaps))].split("/")[-1],
+        "used_numbers": rng.choice([0, 0, 60, 120, 126, 127, 150, 186, 189]),
         "reliability": rng.choice([0.7, 0.85, 0.95]) if profile in ("unreliable",) else
                        (rng.choice([1.0, 1.0, 0.9]) if profile == "mixed" else 1.0),
     }
@@ -191,6 +192,10 @@ async def scenario(world: WorldA) -> None:
     protocol = spa._protocol
     if struct.status_block != snap_block:
         world.violate(PROP, "handshake-block-mismatch", "client block differs from spa block after a clean handshake")
+    # the connection has been in use for a while: its request counter stands anywhere in its cycle (numbers drawn through the counter's
+    # own entry point), so that transfers are numbered from the whole range 1..191, wrap included
+    for _ in range(int(cfg.get("used_numbers", 0))):
+        protocol.get_and_increment_sequence_counter(False)
 
     installs: List[Any] = []
     orig_replace = struct.replace_status_block_segment
@@ -254,7 +259,14 @@ async def scenario(world: WorldA) -> None:
                     get_task.cancel()
                     world.violate(PROP, "too-many-requests", f"transfer#{ti} start={start} length={length} retries={retries} profile={cfg['profile']}: "
                                   f"{n_req} STATU requests sent and the call is still going, configured {retries}")
-            ok = get_task.result()
+            try:
+                ok = get_task.result()
+            except asyncio.CancelledError:
+                raise
+            except Exception as e:
+                world.violate(PROP, "transfer-raised", f"transfer#{ti} start={start} length={length} retries={retries} profile={cfg['profile']}: the call "
+                              f"neither succeeded nor reported failure, it raised {type(e).__name__}: {e} (request number in use: "
+                              f"{getattr(protocol, '_sequence_counter_protocol', '?')})", sig="transfer-raised:" + type(e).__name__)
             t1 = world.now()
             new = struct.status_block
             hist = world.net.history[mark:]
@@ -377,7 +389,13 @@ async def run_pair(world: WorldA, ti: int, op: Dict[str, Any], spa, struct, prot
             for t in pending:
                 t.cancel()
             world.violate(PROP, "too-many-requests", f"pair#{ti} ranges={op['ranges']} retries={retries}: {n_req} STATU requests sent and the calls are still going")
-    ok1, ok2 = t1.result(), t2.result()
+    try:
+        ok1, ok2 = t1.result(), t2.result()
+    except asyncio.CancelledError:
+        raise
+    except Exception as e:
+        world.violate(PROP, "transfer-raised", f"pair#{ti} ranges={op['ranges']}: a call neither succeeded nor reported failure, it raised "
+                      f"{type(e).__name__}: {e}", sig="transfer-raised:" + type(e).__name__)
     new = struct.status_block
     ctx = f"pair#{ti} ranges={op['ranges']} offset={op['offset']} retries={retries} profile={cfg['profile']} results={bool(ok1)},{bool(ok2)}"
     res.probe("concurrent_transfers")
